@@ -71,8 +71,11 @@ pub fn run(run: &Run) {
     );
     let tier = run.tier;
     let f = fmts::ascii(); // names only; Typst rendering does not depend on a format
+    // the Han name alphabet (a superset of the ASCII one: CJK names are printed raw inside the Typst
+    // string literals, so multi-byte characters reach the whitespace post-processing) for terms AND
+    // for the sentence / task item product
     let mut vals: Vec<V> = u::u_term(&fmts::han(), tier).into_iter().map(V::term).collect();
-    vals.extend(u::u_sent(&f));
+    vals.extend(u::u_sent(&fmts::han()));
     vals.extend(u::float_family());
     // rendering -> (class, example)
     let table: Mutex<HashMap<String, (CV, V)>> = Mutex::new(HashMap::new());
